@@ -39,6 +39,16 @@ def _classify(ctx, r, mode, env, lockstep, dist, distinct):
     dist["launch_accept"] += sum(1 for l in lines if " ev launch accept" in l)
     dist["batches"] += sum(1 for l in lines if " ev cb_begin" in l)
     dist["joins"] += sum(1 for l in lines if l.endswith("ev join_begin"))
+    # empty poll while an index is handed out but unpublished (the window of repair 0c66556): the consumer re-polls
+    lastpop = {}
+    nrepoll = 0
+    for l in lines:
+        w = l.split()
+        if len(w) == 5 and w[1] == "ld" and w[2] == "popidx":
+            lastpop[w[0]] = w[4]
+        elif len(w) == 5 and w[1] == "ld" and w[2] == "pushidx" and lastpop.get(w[0]) not in (None, w[4]):
+            nrepoll += 1
+    dist["repoll_behind_unpublished_index"] += nrepoll
     hdr = " ".join(r["header"])
     m = re.search(r"cap=(\d+)", hdr)
     if m:
@@ -46,7 +56,7 @@ def _classify(ctx, r, mode, env, lockstep, dist, distinct):
     m = re.search(r"prods=(\d+)", hdr)
     if m:
         dist["producers"][m.group(1)] = dist["producers"].get(m.group(1), 0) + 1
-    if ncasfail > 0 or nref > 0:
+    if ncasfail > 0 or nref > 0 or nrepoll > 0:
         distinct.add(sha("\n".join(l for l in lines if " ev stats" not in l)))
     text = "mode=%s seed=%d env=%s\n%s\n%s" % (mode, r["seed"], env, hdr, "\n".join(lines[-600:]))
     if r["oracle"]:
@@ -103,7 +113,7 @@ def run(ctx):
         n *= 3      # an obligation no longer checks: search harder for a concrete failing schedule
     seed0 = ctx.seed * 1000003
     dist = {"modes": {}, "verdicts": {}, "replay_ok": 0, "replay_diverge": 0, "oracle": 0, "cas_fail_lines": 0,
-            "refusals_injected": 0, "consumer_exits_and_rollbacks": 0, "launch_accept": 0, "batches": 0, "joins": 0,
+            "refusals_injected": 0, "repoll_behind_unpublished_index": 0, "consumer_exits_and_rollbacks": 0, "launch_accept": 0, "batches": 0, "joins": 0,
             "capacity": {}, "producers": {}, "max_trace": 0}
     distinct = set()
     samples = []
@@ -129,7 +139,8 @@ def run(ctx):
                        "ThreadPoolExecutor with 1-2 workers | either behind a fault injector whose invoke fails per a PRNG bit-string of 1-8 bits with density 1/4-3/4, "
                        "refused callers re-signal after 0-2 yields) under one seeded schedule (random with 5 stickiness levels, PCT, or stickiness 0); "
                        "non-trivial = the trace contains a failed CAS on _events (a producer's signal interfered with the consumer's exit decision or with a roll-back) "
-                       "or at least one injected refusal; distinct by trace hash")
+                       "or at least one injected refusal, or the consumer polled empty while an index was handed out but unpublished (the re-poll branch of repair 0c66556); "
+                       "distinct by trace hash")
     ctx.cov["samples"] = samples or [["<no sample>"]]
 
 
